@@ -435,6 +435,9 @@ func checkMatcherOperatorBlind(r *Run, prog *Program, a *Anchors, pfx string) {
 		}
 		n++
 		if fa.Struct.Obj().Name() == "MatchExpression" && fa.Struct.Obj().Pkg().Path() == grammarPath && fa.Field == "Operator" && fa.Kind != "write" {
+			if v, isV := fa.Instr.(ssa.Value); isV && fa.Kind == "read" && onlyFormatted(v, 0) {
+				continue // named in an error message only: the answer does not depend on it
+			}
 			r.Check(pfx+".matcher-operator-blind", fn.Name()+":reads-Operator", prog.pos(fa.Instr.Pos()), false, "matcher "+fn.Name()+" reads the expression's Operator: what it answers may differ between an operator and its negated form, which the dispatcher negates again")
 		}
 	}
@@ -473,4 +476,65 @@ func checkActionsDoNotRewrite(r *Run, prog *Program, pfx string) {
 		}
 	}
 	r.Check(pfx+".action-reads-labels", "census", "grammar/grammar.go", n >= 20, fmt.Sprintf("info: %d actions examined", n))
+}
+
+// onlyFormatted: the value is used for nothing but text — wrapped in an interface and handed to fmt/errors formatting, or
+// turned into its name by a String method whose result is used the same way.
+func onlyFormatted(v ssa.Value, depth int) bool {
+	if depth > 5 {
+		return false
+	}
+	refs := v.Referrers()
+	if refs == nil {
+		return true
+	}
+	for _, u := range *refs {
+		switch x := u.(type) {
+		case *ssa.DebugRef:
+		case *ssa.MakeInterface:
+			if !onlyFormatted(x, depth+1) {
+				return false
+			}
+		case *ssa.Store:
+			// into a slot of the argument list of a variadic call
+			ia, ok := x.Addr.(*ssa.IndexAddr)
+			if !ok || x.Val != v {
+				return false
+			}
+			al, ok := ia.X.(*ssa.Alloc)
+			if !ok || !strings.Contains(al.Comment, "varargs") {
+				return false
+			}
+			if ar := al.Referrers(); ar != nil {
+				for _, au := range *ar {
+					if sl, ok := au.(*ssa.Slice); ok {
+						if !onlyFormatted(sl, depth+1) {
+							return false
+						}
+					}
+				}
+			}
+		case *ssa.Call:
+			callee := x.Call.StaticCallee()
+			if callee == nil || callee.Pkg == nil {
+				return false
+			}
+			switch callee.Pkg.Pkg.Path() {
+			case "fmt", "errors":
+				// formatting: the text is all that depends on it
+			default:
+				// its own String method
+				if callee.Name() == "String" && len(x.Call.Args) == 1 && x.Call.Args[0] == v && callee.Signature.Results().Len() == 1 {
+					if !onlyFormatted(x, depth+1) {
+						return false
+					}
+					continue
+				}
+				return false
+			}
+		default:
+			return false
+		}
+	}
+	return true
 }
